@@ -121,3 +121,307 @@ fn c26_allow_list_enforced() {
 fn unused() -> (AtomicBool,) {
     (AtomicBool::new(false),)
 }
+
+// ================================================================ Engine B (native, bounded-exhaustive) parts
+#[cfg(test)]
+mod native {
+    use super::*;
+    use std::sync::Mutex;
+
+    fn strings_over(alphabet: &[char], max_len: usize) -> Vec<String> {
+        let mut out = vec![String::new()];
+        let mut frontier = vec![String::new()];
+        for _ in 0..max_len {
+            let mut next = Vec::new();
+            for s in &frontier {
+                for c in alphabet {
+                    let mut t = s.clone();
+                    t.push(*c);
+                    next.push(t);
+                }
+            }
+            out.extend(next.iter().cloned());
+            frontier = next;
+        }
+        out
+    }
+
+    // ---- C26: the documented matching rules, executable (exact host or `*.` wildcard with a real sub-domain label,
+    // case-insensitive, optional scheme must match, port must match)
+    fn reference_match(pattern: &str, scheme: &str, host: &str, port: Option<&str>) -> bool {
+        let p = pattern.to_ascii_lowercase();
+        let (ps, rest) = if let Some(r) = p.strip_prefix("https://") {
+            (Some("https"), r)
+        } else if let Some(r) = p.strip_prefix("http://") {
+            (Some("http"), r)
+        } else {
+            (None, p.as_str())
+        };
+        let (ph, pp) = match rest.rfind(':') {
+            Some(i) => (&rest[..i], Some(&rest[i + 1..])),
+            None => (rest, None),
+        };
+        let scheme_ok = ps.is_none() || ps == Some(scheme);
+        if ph.is_empty() {
+            return ps.is_some() && scheme_ok;
+        }
+        let h = host.to_ascii_lowercase();
+        let host_ok = if let Some(suffix) = ph.strip_prefix("*.") {
+            // some non-empty label(s), a dot, then exactly the suffix
+            h.len() > suffix.len() + 1 && h.ends_with(suffix) && h.as_bytes()[h.len() - suffix.len() - 1] == b'.'
+        } else {
+            h == ph
+        };
+        host_ok && pp == port && scheme_ok
+    }
+
+    #[test]
+    fn c26_host_pattern_matching_small_domain() {
+        let thorough = std::env::var("VERIF_B_TIER").map(|t| t == "thorough").unwrap_or(false);
+        let hosts: Vec<String> = strings_over(&['a', 'b', '.', 'A'], 4).into_iter().filter(|h| !h.is_empty() && !h.starts_with('.') && !h.contains("..")).collect();
+        let mut pats: Vec<String> = Vec::new();
+        for core in strings_over(&['a', 'b', '.', '*', 'A'], if thorough { 4 } else { 3 }) {
+            for port in ["", ":1", ":80"] {
+                for scheme in ["", "http://", "https://", "HTTPS://"] {
+                    pats.push(format!("{scheme}{core}{port}"));
+                }
+            }
+        }
+        let mut evals = 0usize;
+        let mut nontrivial = 0usize;
+        let mut counts: std::collections::BTreeMap<String, usize> = std::collections::BTreeMap::new();
+        let mut uris: Vec<(String, String, Option<String>, Uri)> = Vec::new();
+        for h in &hosts {
+            for scheme in ["http", "https"] {
+                for port in [None, Some("1"), Some("80")] {
+                    let s = match port {
+                        Some(p) => format!("{scheme}://{h}:{p}/x"),
+                        None => format!("{scheme}://{h}/x"),
+                    };
+                    if let Ok(u) = s.parse::<Uri>() {
+                        if u.host() == Some(h.as_str()) {
+                            uris.push((scheme.to_string(), h.clone(), port.map(|p| p.to_string()), u));
+                        }
+                    }
+                }
+            }
+        }
+        for p in &pats {
+            let hp = HostPattern::new(p);
+            for (scheme, host, port, uri) in &uris {
+                evals += 1;
+                let want = reference_match(p, scheme, host, port.as_deref());
+                if want {
+                    nontrivial += 1;
+                }
+                let got = hp.matches(uri);
+                // is_uri_allowed == exists pattern. matches
+                let got_list = is_uri_allowed(&[HostPattern::new("zz.invalid"), hp.clone()], uri);
+                if got != want || got_list != want {
+                    let k = if got && !want { "host_pattern.matches_too_much" } else { "host_pattern.matches_too_little" };
+                    let c = counts.entry(k.to_string()).or_insert(0);
+                    *c += 1;
+                    if *c <= 3 {
+                        println!("VERIF-B-VIOLATION key={k} input=pattern={p:?} uri={uri}");
+                    }
+                }
+            }
+        }
+        println!("VERIF-B-SAMPLE pattern \"*.a.b\" vs http://x.a.b/ -> {} ; vs http://a.b/ -> {} ; pattern \"a:80\" vs http://a/ -> {}", HostPattern::new("*.a.b").matches(&"http://x.a.b/".parse::<Uri>().unwrap()), HostPattern::new("*.a.b").matches(&"http://a.b/".parse::<Uri>().unwrap()), HostPattern::new("a:80").matches(&"http://a/".parse::<Uri>().unwrap()));
+        println!("VERIF-B-SAMPLE violation classes this run: {:?}", counts);
+        println!("VERIF-B unit=restricted test=c26_host_pattern_matching_small_domain evaluations={evals} nontrivial={nontrivial} exhaustive=true domain={} patterns (all strings <= {} over {{a b . * A}} x ports {{none,1,80}} x schemes {{none,http,https,HTTPS}}) x {} URIs (hosts <= 4 over {{a b . A}} x 2 schemes x 3 ports)", pats.len(), if thorough { 4 } else { 3 }, uris.len());
+    }
+
+    // ---- C27: host-string kernels
+    #[test]
+    fn c27_host_string_kernels() {
+        let thorough = std::env::var("VERIF_B_TIER").map(|t| t == "thorough").unwrap_or(false);
+        let mut evals = 0usize;
+        let mut nontrivial = 0usize;
+        let mut counts: std::collections::BTreeMap<String, usize> = std::collections::BTreeMap::new();
+        let mut bad = |k: &str, input: String, counts: &mut std::collections::BTreeMap<String, usize>| {
+            let c = counts.entry(k.to_string()).or_insert(0);
+            *c += 1;
+            if *c <= 3 {
+                println!("VERIF-B-VIOLATION key={k} input={input}");
+            }
+        };
+        // looks_like_obfuscated_ip == non-empty and (only digits and dots, or some dot-separated label starts with 0x/0X)
+        for s in strings_over(&['0', '1', '7', 'x', 'X', '.', 'a', '-'], if thorough { 6 } else { 5 }) {
+            evals += 1;
+            let all_num = !s.is_empty() && s.chars().all(|c| c.is_ascii_digit() || c == '.');
+            let hex = s.split('.').any(|l| l.len() >= 2 && (l.as_bytes()[0] == b'0') && (l.as_bytes()[1] == b'x' || l.as_bytes()[1] == b'X'));
+            let want = !s.is_empty() && (all_num || hex);
+            if want {
+                nontrivial += 1;
+            }
+            if looks_like_obfuscated_ip(&s) != want {
+                bad("host.obfuscated_ip_spec", format!("{s:?}"), &mut counts);
+            }
+        }
+        // normalize_host: strips one pair of brackets, one trailing dot, lower-cases
+        for s in strings_over(&['a', 'B', '.', '[', ']', ':'], 5) {
+            evals += 1;
+            let mut w: &str = &s;
+            if w.starts_with('[') && w.ends_with(']') && w.len() >= 2 {
+                w = &w[1..w.len() - 1];
+            }
+            if w.ends_with('.') {
+                w = &w[..w.len() - 1];
+            }
+            if normalize_host(&s) != w.to_ascii_lowercase() {
+                bad("host.normalize_spec", format!("{s:?}"), &mut counts);
+            }
+        }
+        // host_is_non_global on URIs: range boundaries from the statement, obfuscated forms, loopback names
+        let blocked = [
+            "0.0.0.0", "0.255.255.255", "10.0.0.0", "10.255.255.255", "127.0.0.1", "127.255.255.255", "169.254.0.0", "169.254.169.254", "169.254.255.255",
+            "172.16.0.0", "172.31.255.255", "192.168.0.0", "192.168.255.255", "192.0.2.0", "192.0.2.255", "198.51.100.0", "198.51.100.255", "203.0.113.0", "203.0.113.255",
+            "224.0.0.0", "239.255.255.255", "255.255.255.255", "100.64.0.0", "100.127.255.255",
+            "[::]", "[::1]", "[ff00::]", "[ff02::1]", "[fc00::]", "[fdff::1]", "[fe80::]", "[febf::1]", "[::ffff:10.0.0.1]", "[::ffff:127.0.0.1]", "[::ffff:169.254.169.254]", "[::ffff:192.168.1.1]",
+            "2130706433", "127.1", "0x7f.0.0.1", "0177.0.0.1", "127.0x1", "0X7F.0.0.1", "1.2.3", "10.0.0.1.", "localhost", "LOCALHOST", "localhost.", "foo.localhost", "a.b.LocalHost.",
+        ];
+        let allowed = [
+            "1.0.0.0", "9.255.255.255", "11.0.0.0", "126.255.255.255", "128.0.0.0", "169.253.255.255", "169.255.0.0", "172.15.255.255", "172.32.0.0", "192.167.255.255", "192.169.0.0",
+            "192.0.1.255", "192.0.3.0", "198.51.99.255", "198.51.101.0", "203.0.112.255", "203.0.114.0", "223.255.255.255", "100.63.255.255", "100.128.0.0", "8.8.8.8",
+            "[2001:4860:4860::8888]", "[fec0::1]", "[fbff::1]", "[::2]", "[::ffff:8.8.8.8]", "example.com", "localhost.example.com", "notlocalhost", "x0x1.example", "a-0x1.example",
+        ];
+        for (list, want) in [(&blocked[..], true), (&allowed[..], false)] {
+            for h in list {
+                for suffix in ["", ":8080"] {
+                    let s = format!("http://{h}{suffix}/p");
+                    let Ok(u) = s.parse::<Uri>() else { continue };
+                    evals += 1;
+                    nontrivial += 1;
+                    if host_is_non_global(&u) != want {
+                        bad(if want { "host.internal_target_not_blocked" } else { "host.public_target_blocked" }, s.clone(), &mut counts);
+                    }
+                }
+            }
+        }
+        println!("VERIF-B-SAMPLE host_is_non_global(http://[::ffff:169.254.169.254]/) = {}", host_is_non_global(&"http://[::ffff:169.254.169.254]/".parse::<Uri>().unwrap()));
+        println!("VERIF-B-SAMPLE violation classes this run: {:?}", counts);
+        println!("VERIF-B unit=restricted test=c27_host_string_kernels evaluations={evals} nontrivial={nontrivial} exhaustive=true domain=looks_like_obfuscated_ip: every string <= {} over {{0 1 7 x X . a -}}; normalize_host: every string <= 5 over {{a B . [ ] :}}; host_is_non_global: {} boundary / obfuscated / name hosts with and without port", if thorough { 6 } else { 5 }, blocked.len() + allowed.len());
+    }
+
+    // ---- C27: credentials are not forwarded on a redirect
+    #[test]
+    fn c27_build_redirected_request_drops_credentials() {
+        let names = ["host", "authorization", "cookie", "proxy-authorization", "accept", "x-custom", "Authorization", "COOKIE"];
+        let mut evals = 0usize;
+        let mut viol = 0usize;
+        for mask in 0u32..(1 << names.len()) {
+            for method in [http::Method::GET, http::Method::POST] {
+                let mut headers = http::HeaderMap::new();
+                for (i, n) in names.iter().enumerate() {
+                    if mask & (1 << i) != 0 {
+                        headers.append(http::header::HeaderName::from_bytes(n.to_ascii_lowercase().as_bytes()).unwrap(), http::HeaderValue::from_str(&format!("v{i}")).unwrap());
+                    }
+                }
+                let target: Uri = "https://example.com/next".parse().unwrap();
+                evals += 1;
+                let r = build_redirected_request(method.clone(), headers.clone(), vec![1, 2, 3], target.clone());
+                let ok = match &r {
+                    Ok(req) => {
+                        req.uri() == &target
+                            && req.method() == method
+                            && req.body() == &vec![1u8, 2, 3]
+                            && !req.headers().contains_key("host")
+                            && !req.headers().contains_key("authorization")
+                            && !req.headers().contains_key("cookie")
+                            && !req.headers().contains_key("proxy-authorization")
+                            && headers.iter().filter(|(n, _)| !["host", "authorization", "cookie", "proxy-authorization"].contains(&n.as_str())).all(|(n, v)| req.headers().get_all(n).iter().any(|x| x == v))
+                    }
+                    Err(_) => false,
+                };
+                if !ok {
+                    viol += 1;
+                    if viol <= 3 {
+                        println!("VERIF-B-VIOLATION key=redirect.credentials_or_frame input=header mask {mask:#x} method {method}");
+                    }
+                }
+            }
+        }
+        println!("VERIF-B unit=restricted test=c27_build_redirected_request_drops_credentials evaluations={evals} nontrivial={} exhaustive=true domain=every subset of 8 header names (4 credential-bearing incl. case variants) x {{GET,POST}}; violations={viol}", evals - 2);
+    }
+
+    // ---- C26 + C27: the stacked resolvers RedirectResolver<RestrictedResolver<transport>> with a scripted transport
+    struct Scripted {
+        // host -> Some(location) for a redirect, None for 200
+        script: Vec<(String, Option<String>)>,
+        seen: Mutex<Vec<(String, bool)>>, // (uri, carried credentials)
+    }
+    impl SyncHttpResolver for Scripted {
+        fn http_resolve(&self, request: Request<Vec<u8>>) -> Result<Response<Box<dyn Read>>, HttpResolverError> {
+            let creds = request.headers().contains_key("authorization") || request.headers().contains_key("cookie");
+            self.seen.lock().unwrap().push((request.uri().to_string(), creds));
+            let host = request.uri().host().unwrap_or("").to_string();
+            let body: Box<dyn Read> = Box::new(std::io::empty());
+            for (h, loc) in &self.script {
+                if *h == host {
+                    if let Some(l) = loc {
+                        return Ok(Response::builder().status(302).header(http::header::LOCATION, l.as_str()).body(body).unwrap());
+                    }
+                }
+            }
+            Ok(Response::builder().status(200).body(body).unwrap())
+        }
+    }
+
+    #[test]
+    fn c26_c27_redirect_chains_through_stacked_resolvers() {
+        // hosts: a.ok and b.ok are on the allow-list, evil.no is public but not allowed, the rest are internal
+        let targets = ["http://a.ok/", "http://b.ok/", "http://evil.no/", "http://127.0.0.1/", "http://169.254.169.254/latest", "http://[::1]/", "http://localhost/", "http://2130706433/", "/relative"];
+        let allowed = |u: &str| u.starts_with("http://a.ok/") || u.starts_with("http://b.ok/");
+        let mut evals = 0usize;
+        let mut nontrivial = 0usize;
+        let mut counts: std::collections::BTreeMap<String, usize> = std::collections::BTreeMap::new();
+        for allow_redirects in [true, false] {
+            for t1 in 0..=targets.len() {
+                for t2 in 0..=targets.len() {
+                    // a.ok redirects to t1 (or answers 200), b.ok redirects to t2 (or 200); everything else answers 200
+                    let script = vec![("a.ok".to_string(), targets.get(t1).map(|s| s.to_string())), ("b.ok".to_string(), targets.get(t2).map(|s| s.to_string()))];
+                    let transport = Scripted { script, seen: Mutex::new(Vec::new()) };
+                    let restricted = RestrictedResolver::with_allowed_hosts(transport, vec![HostPattern::new("a.ok"), HostPattern::new("b.ok")]);
+                    let r = RedirectResolver::new(restricted, allow_redirects);
+                    let req = Request::get("http://a.ok/start").header("authorization", "secret").header("cookie", "c=1").body(Vec::new()).unwrap();
+                    let _ = r.http_resolve(req);
+                    evals += 1;
+                    if t1 < targets.len() {
+                        nontrivial += 1;
+                    }
+                    let seen = r.inner.inner.seen.lock().unwrap().clone();
+                    let mut key: Option<&str> = None;
+                    if seen.len() > MAX_REDIRECTS + 1 {
+                        key = Some("redirect.too_many_requests");
+                    }
+                    for (i, (u, creds)) in seen.iter().enumerate() {
+                        if !allowed(u) {
+                            key = Some("redirect.request_outside_allow_list_reached_transport");
+                        }
+                        if let Ok(pu) = u.parse::<Uri>() {
+                            if host_is_non_global(&pu) {
+                                key = Some("redirect.internal_address_reached_transport");
+                            }
+                        }
+                        if i > 0 && *creds {
+                            key = Some("redirect.credentials_forwarded");
+                        }
+                        if i > 0 && !allow_redirects {
+                            key = Some("redirect.followed_although_disabled");
+                        }
+                    }
+                    if let Some(k) = key {
+                        let c = counts.entry(k.to_string()).or_insert(0);
+                        *c += 1;
+                        if *c <= 3 {
+                            println!("VERIF-B-VIOLATION key={k} input=allow_redirects={allow_redirects} a.ok->{:?} b.ok->{:?} seen={seen:?}", targets.get(t1), targets.get(t2));
+                        }
+                    }
+                }
+            }
+        }
+        println!("VERIF-B-SAMPLE violation classes this run: {:?}", counts);
+        println!("VERIF-B unit=restricted test=c26_c27_redirect_chains_through_stacked_resolvers evaluations={evals} nontrivial={nontrivial} exhaustive=true domain=allow_redirects x (a.ok -> one of 9 targets or 200) x (b.ok -> one of 9 targets or 200), request with credentials, allow-list {{a.ok, b.ok}}");
+    }
+}
